@@ -90,6 +90,9 @@ Fixpoint expand (fuel : nat) (keep : bool) (st : store) : list tok -> option str
         end
     end.
 
+(* a text without '$' is its own expansion *)
+Definition no_dollar (s : str) : bool := forallb (fun c => negb (c =? 36)) s.
+
 Definition sh_output (cmd : str) : str := [60] ++ cmd ++ [62].
 
 Definition exec_assign (fuel : nat) (st : store) (a : sassign) : store :=
